@@ -90,7 +90,7 @@ func runC02(c *kit.Ctx) {
 				return
 			}
 			kit.Instrs(reg, func(x ssa.Instruction) {
-				if r, ok := x.(*ssa.Return); ok && r.Results[0] == ssa.Value(call) {
+				if r, ok := x.(*ssa.Return); ok && kit.Res(r, 0) == ssa.Value(call) {
 					good = true
 				}
 			})
@@ -116,7 +116,7 @@ func runC02(c *kit.Ctx) {
 			}
 		})
 		kit.Instrs(unreg, func(in ssa.Instruction) {
-			if r, ok := in.(*ssa.Return); ok && looked != nil && kit.Root(r.Results[0]) == looked {
+			if r, ok := in.(*ssa.Return); ok && looked != nil && kit.Root(kit.Res(r, 0)) == looked {
 				retOK = true
 			}
 		})
@@ -476,10 +476,10 @@ func runC02(c *kit.Ctx) {
 			nested := kit.Calls(fn, kit.M("hrpc", "", "deserializeCellBlocks"))
 			kit.Instrs(fn, func(in ssa.Instruction) {
 				r, ok := in.(*ssa.Return)
-				if !ok || len(r.Results) != 2 || !kit.IsNilConst(kit.Root(r.Results[1])) {
+				if !ok || len(r.Results) != 2 || !kit.IsNilConst(kit.Root(kit.Res(r, 1))) {
 					return
 				}
-				v := kit.Root(r.Results[0])
+				v := kit.Root(kit.Res(r, 0))
 				good, why := false, ""
 				if ex, ok := v.(*ssa.Extract); ok && ex.Index == 1 && len(nested) == 1 && ex.Tuple == nested[0].Value() {
 					good, why = true, "returns the count read by deserializeCellBlocks"
